@@ -152,6 +152,7 @@ ListIndex(els, n) ==        \* language semantics of xs[i]: truncate toward zero
      ELSE IF n.e # 0 /\ n.s = 0 /\ n.e > 0 /\ n.n < 0 THEN [st |-> "ood"]
      ELSE LET i == TruncI([n EXCEPT !.e = 0]) IN
           IF i >= 0 /\ i < Len(els) THEN [st |-> "ok", i |-> i + 1] ELSE [st |-> "out"])
+  ELSE IF n.k = "nzero" THEN (IF Len(els) > 0 THEN [st |-> "ok", i |-> 1] ELSE [st |-> "out"])
   ELSE IF n.k \in {"big", "inf", "nan"} THEN [st |-> "out"]
   ELSE [st |-> "ood"]
 
